@@ -33,13 +33,23 @@ def _scenario(draw, tier):
     n = draw(st.integers(1, 7))
     for _ in range(n):
         if kind == "ensemble":
-            k = draw(st.sampled_from(["advance", "advance", "restart", "restart"]))
-            if k == "advance":
+            k = draw(st.sampled_from(["advance", "advance", "restart", "restart", "advance", "restart", "interrupt"]))
+            if k == "interrupt":
+                ops.append(["interrupt", draw(st.sampled_from([1, 2, 4])), draw(st.integers(1, 30))])
+                ops.append(["restart"])
+            elif k == "advance":
                 ops.append(["advance", lc.maybe_long(draw, draw(st.sampled_from([0, 1, 1, 2, 3, 5])), cfg)])
             else:
                 ops.append(["restart"])
             continue
-        k = draw(st.sampled_from(["step", "advance", "advance", "restart", "restart", "limits", "mass"]))
+        k = draw(st.sampled_from(["step", "advance", "advance", "restart", "restart", "limits", "mass", "interrupt"]))
+        if k == "interrupt":
+            # the posterior raises in the middle of an advance (both samplers live through the same failure); a save right
+            # after it captures a sampler between two attempts of one step
+            ops.append(["interrupt", draw(st.sampled_from([1, 3, 12])), draw(st.integers(1, 40))])
+            if draw(st.booleans()):
+                ops.append(["restart"])
+            continue
         if k == "mass" and kind != "hmc":
             k = "advance"
         if k == "step":
@@ -142,9 +152,10 @@ def compare(V, P, S, when, stats, deep=False):
             _viol(V, "reload.equal", "%s %s: mode() differs between reloaded and original" % (S.kind, when))
     except LibRaised as e:
         _viol(V, "reload.readout", "%s %s: %s" % (S.kind, when, e))
-    # the whole numeric state (samples, histories of adapted widths / step sizes / directions, counters, per-walker
-    # diagnostics), attribute by attribute: equal right after the reload and after every continued operation
-    dif = oracles.state_diff(oracles.numeric_state(S.chain), oracles.numeric_state(P.chain))
+    # the state the samplers report and save (samples, histories of adapted widths / step sizes / directions, counters,
+    # per-walker diagnostics), attribute by attribute: equal right after the reload and after every continued operation
+    dif = oracles.state_diff(oracles.numeric_state(S.chain, only=oracles.REPORTED_STATE),
+                             oracles.numeric_state(P.chain, only=oracles.REPORTED_STATE))
     stats["states_compared"] += 1
     if dif:
         _viol(V, "reload.tuning", "%s %s: the state of the reloaded sampler differs from the never-saved one at %d attribute(s): %s"
@@ -203,6 +214,7 @@ def execute(sc):
     seams.seed_global_streams(cfg["seed"])
     restarts = 0
     ended = False
+    interrupted = False
     steps_before_first_restart = None
     try:
         with seams.Seams(clock=seams.FakeClock()):
@@ -223,7 +235,9 @@ def execute(sc):
                     try:
                         old = lc.op_restart(S, "r%d" % restarts)
                     except LibRaised as e:
-                        _viol(V, "reload.saveload", "%s with %d stored samples: %s" % (S.kind, P.length(), e))
+                        _viol(V, "reload.saveload", "%s with %d stored samples%s: %s"
+                              % (S.kind, P.length(), " (after an advance that the posterior interrupted)" if interrupted else "", e),
+                              sampler=S.kind, after_interrupt=bool(interrupted))
                         break
                     restarts += 1
                     stats["fault_crash_restart"] += 1
@@ -237,7 +251,9 @@ def execute(sc):
                 try:
                     # primary first: if the never-saved sampler cannot do it, the history ends
                     try:
+                        before_ = c.stats["probe_operation_interrupted_by_the_posterior"]
                         apply_one(P, op)
+                        interrupted = interrupted or c.stats["probe_operation_interrupted_by_the_posterior"] > before_
                     except (LibRaised, lc.StepExhausted, rctx.Runaway):
                         stats["primary_op_failed_history_ended"] += 1
                         ended = True  # (the primary may have stopped part-way: the two are no longer comparable)
@@ -282,6 +298,9 @@ def apply_one(h, op):
         lc.op_step(h)
     elif name == "advance":
         lc.op_advance(h, op[1])
+    elif name == "interrupt":
+        if lc.op_interrupted_advance(h, op[1], op[2]):
+            rctx.get().stats["probe_operation_interrupted_by_the_posterior"] += 1
     elif name == "set_bounds":
         i, w, frac = op[1], op[2], op[3]
         cur = float(np.asarray(h.chain.get_parameter(i, burn=0))[-1])
